@@ -125,6 +125,7 @@ func c13Scenario(r *sim.Run) {
 	s := hook.Install(tp)
 	defer s.Uninstall()
 	s.LockYield = true
+	s.UnlockYield = true
 	s.Trace = func(l string) { r.Logf("step %s", l) }
 
 	var reqs []int
